@@ -97,6 +97,67 @@ def stream_inputs(tier, seed, prop):
     return xs
 
 
+LATE_SPECS = ["SM", "SD 0", "SD 1", "NO", "TL 1 0 D maximum", "TL 2 1 R maximum", "TL 3 1 D maximum", "TL 3 2 D revolve",
+              "TL 4 0 R maximum", "TL 4 2 R revolve", "TL 5 3 R revolve"]
+
+
+def _late_finalize(res, prop, tier, cfg):
+    """A client that finalises LATE: it has already asked for `late` further actions (and received further Forward
+    actions, for TwoLevel / SingleDisk with further checkpoints written) when it calls finalize(N).  By C10 the call is
+    accepted and the forward is clamped to N; the rest of the stream must then be the stream of the canonical client:
+    the canonical forward phase followed by what the real object emits after the late finalize is given to the Lean
+    executor."""
+    passes = 2
+    ns = (1, 2, 3, 4, 6, 9) if tier == "quick" else tuple(range(1, 14))
+    canon = [(spec, n, passes) for spec in LATE_SPECS for n in ns]
+    real = core.real_traces(canon)
+    hists = []
+    for x in canon:
+        r = real[x]
+        acts = [i for i, ln in enumerate(r) if ln.startswith("A ")]
+        ef = next((i for i in acts if r[i].startswith("A EF")), None)
+        if ef is None or (r and r[0].startswith(("X", "H"))):
+            continue
+        c0 = sum(1 for i in acts if i < ef)
+        m = sum(1 for i in acts if i >= ef)
+        for late in (1, 2):
+            hists.append((x, late, (x[0], tuple(["n"] * (c0 + late) + [f"f{x[1]}"] + ["n"] * (m + 1)))))
+    hreal = core.real_hists([h for _, _, h in hists])
+    reqs, keep = [], []
+    for x, late, h in hists:
+        hr = hreal[h]
+        if hr and hr[0].startswith(("H ", "X ")):
+            continue
+        k = next((i for i, (op, ln) in enumerate(zip(h[1], hr)) if op.startswith("f")), None)
+        if k is None or not hr[k].startswith("f ok"):
+            continue        # the late call was rejected: C10's business
+        post = [ln for ln in hr[k + 1:] if ln.startswith(("A ", "B ", "S"))]
+        out, ers = [], 0
+        for ln in post:
+            out.append(ln)
+            if ln.startswith("A ER"):
+                ers += 1
+                if ers >= passes:
+                    break
+        r = real[x]
+        ef = next(i for i, ln in enumerate(r) if ln.startswith("A EF"))
+        synth = [ln for ln in r[:ef] if ln.startswith(("A ", "B "))] + [ln for ln in out if ln.startswith(("A ", "B "))]
+        reqs.append((f"mon {core.lean_spec(x[0])} @ {x[1]} {x[2]}", synth))
+        keep.append((h, synth))
+    outs = core.driver().ask_many(reqs) if reqs else []
+    for (h, synth), out in zip(keep, outs):
+        res.programs += 1
+        for ln in out:
+            w = ln.split()
+            if len(w) == 4 and w[0] == "V" and (w[2] in cfg["tags"]):
+                i = int(w[1])
+                res.viol(h, f"{w[2]}.{w[3]} at action {i} of the stream after a late finalize "
+                            f"(canonical forward phase + the actions emitted after the call): {synth[i].split(' | ')[0] if i < len(synth) else '?'}",
+                         {"actions": [a.split(" | ")[0] for a in synth[max(0, i - 6): i + 2]]})
+                break
+    res.stats["late_finalize_histories"] = len(keep)
+
+
 def check_stream(prop, tier, seed, inputs=None):
     res = Result(prop)
     cfg = STREAM[prop]
@@ -145,6 +206,8 @@ def check_stream(prop, tier, seed, inputs=None):
             seen.add(h)
             if len(res.samples) < 3:
                 res.samples.append({"input": list(x), "trace_head": r[:8], "actions": sum(1 for ln in r if ln.startswith("A "))})
+    if prop in ("C01", "C02", "C03", "C04", "C08", "C12") and inputs is None:
+        _late_finalize(res, prop, tier, cfg)
     if prop in ("C01", "C12"):
         _twin_check(res, xs, real)
     if prop == "C11" and inputs is None:
@@ -1600,6 +1663,11 @@ def check_C17(tier, seed):
                 res.viol(x, f"valid parameters, but the schedule fails at stage '{o}': {[l for l in r if l.startswith(('X', 'B'))][:1]}")
             elif any(t == "C02" and c == 10 for _, t, c in mon[x]):
                 res.viol(x, "valid parameters, but the stream ends before its last permitted EndReverse")
+            elif any(t == "C02" and c in (5, 8, 12) for _, t, c in mon[x]):
+                i, _, c = next((i, t, c) for i, t, c in mon[x] if t == "C02" and c in (5, 8, 12))
+                res.viol(x, f"valid parameters, but the stream is not a complete calculation: C02.{c} at action {i} "
+                            "(EndForward / EndReverse / the end of the stream before every step was advanced / reversed)",
+                         _excerpt(r, i))
             w = x[0].split()
             if w[0] in ("MS", "MX", "RV", "DR", "PD", "HR") and (int(w[1]) == 1 or int(w[2]) >= int(w[1])):
                 seen.add(x[0])
